@@ -83,6 +83,25 @@ def run(chk):
             for st in (stall1, stall_mid, dict(okp, fault={"pos": 0, "kind": "silence"})):
                 extremes.append({"config": {"terminal_id": "11112222"}, "calls": [{"op": "configure"}],
                                  "plan": {"exchanges": [okp] * k + [{"o": "abort", "code": code}], "default": st}})
+    # card data of every size (UIDs of 4 / 7 / 8 / 10 / 16 / 20 bytes, zero-padded or not): what a card says never keeps read_card busy
+    for uid in ([4, 161, 178, 195], [4, 1, 2, 3, 4, 5, 6], [0xe0, 4, 1, 0, 0x12, 0x34, 0x56, 0x78], [0x88, 4, 1, 2, 3, 4, 5, 6, 7, 8],
+                [0, 0, 0, 0xe0, 4, 1, 0, 0x12, 0x34, 0x56], list(range(1, 17)), [0xff] * 20, [0] * 12):
+        extremes.append({"calls": [{"op": "read_card"}, {"op": "read_card"}], "plan": {"exchanges": [{"o": "status", "uid": uid}], "default": okp}})
+    # a terminal that cannot be reached: every connection attempt refused at once (switched off, port closed), from the start or after
+    # n attempts that stall; and one that comes back after 1 / 19 / 20 / 21 refusals
+    ref = {"connect": "refused"}
+    for calls in ([{"op": "read_card"}], [{"op": "begin", "token": [97]}], [{"op": "configure"}], [{"op": "new"}],
+                  [{"op": "begin", "token": [97]}, {"op": "commit", "token": [97], "amount": [1]}]):
+        extremes.append({"start": "disconnected", "calls": calls, "plan": {"exchanges": [], "handshake": [], "handshake_default": ref, "default": okp}})
+        extremes.append({"start": "disconnected", "calls": calls,
+                         "plan": {"exchanges": [], "handshake": [{"connect": "stall"}] * 3, "handshake_default": ref, "default": okp}})
+        for n in (1, 19, 20, 21):
+            extremes.append({"start": "disconnected", "calls": calls, "plan": {"exchanges": [], "handshake": [ref] * n, "default": okp}})
+    # a connection lost in the middle of an operation, and nothing but refusals afterwards
+    for k in range(0, 4):
+        extremes.append({"calls": [{"op": "begin", "token": [97]}, {"op": "commit", "token": [97], "amount": [1]}, {"op": "read_card"}],
+                         "plan": {"exchanges": [okp] * k + [dict(okp, fault={"pos": 1, "kind": "close"})], "handshake": [], "handshake_default": ref,
+                                  "default": okp}})
     total = 0
     for label, binary in (("debug", dbg), ("release", rel)):
         out = cl.run_scenarios(binary, sc + extremes, wd, "c10" + label)
